@@ -1,45 +1,20 @@
 import StepupModel.Proto
-import StepupModel.P.Like
-import StepupModel.Generated.Sqlite
-/-! Model driver: one request line in, one answer line out (see `StepupModel/Proto.lean`). -/
-open StepupModel StepupModel.Proto
-
-namespace DriverC18
-open StepupModel.P.Like
-
-def strs (l : List String) : List Str := l.map cps
-def out (l : List Str) : String := hexList (l.map ofCps)
-
-def handle : List String → Option String
-  | ["like", cs, esc, pat, s] => do
-    let pat ← unhex pat; let s ← unhex s; let esc ← unhex esc
-    let e := match cps esc with | [c] => c | _ => 0
-    pure (boolStr (like (cs = "1") e (cps pat) (cps s)))
-  | ["pattern", d] => do pure (hex (ofCps (prefixPattern (cps (← unhex d)))))
-  | ["upper", d] => do
-    pure (match dirRangeUpper (cps (← unhex d)) with | some u => "some " ++ hex (ofCps u) | none => "none")
-  | ["addslash", d] => do pure (hex (ofCps (addSlash (cps (← unhex d)))))
-  | ["owning", path, trees] => do
-    pure (out (owningTrees (strs (← unhexList trees)) (cps (← unhex path))))
-  | ["undertree", path, labels] => do
-    pure (out (underTreeLike Generated.Sqlite.likeCaseSensitive (cps (← unhex path)) (strs (← unhexList labels))))
-  | ["relevant", dir, files, globs] => do
-    pure (out (relevantUnder Generated.Sqlite.likeCaseSensitive (cps (← unhex dir))
-      (strs (← unhexList files)) (strs (← unhexList globs))))
-  | ["range", dir, labels] => do
-    pure (out (underRange (cps (← unhex dir)) (strs (← unhexList labels))))
-  | ["clean", arg, labels] => do
-    pure (out (cleanMatching Generated.Sqlite.likeCaseSensitive (cps (← unhex arg)) (strs (← unhexList labels))))
-  | ["inside", path, trees] => do
-    pure (boolStr (insideTree (strs (← unhexList trees)) (cps (← unhex path))))
-  | ["contains", path, trees] => do
-    pure (boolStr (containsTree (strs (← unhexList trees)) (cps (← unhex path))))
-  | _ => none
-end DriverC18
+import StepupModel.Drv.C13
+import StepupModel.Drv.C16
+import StepupModel.Drv.C17
+import StepupModel.Drv.C18
+import StepupModel.Drv.C20
+/-! Model driver: one request line in, one answer line out (see `StepupModel/Proto.lean`).
+Each property's requests are handled in `StepupModel/Drv/<ID>.lean`. -/
+open StepupModel
 
 def dispatch (line : String) : String :=
   match line.splitOn " " with
-  | "c18" :: rest => (DriverC18.handle rest).getD "bad-op"
+  | "c13" :: rest => (Drv.C13.handle rest).getD "bad-op"
+  | "c16" :: rest => (Drv.C16.handle rest).getD "bad-op"
+  | "c17" :: rest => (Drv.C17.handle rest).getD "bad-op"
+  | "c18" :: rest => (Drv.C18.handle rest).getD "bad-op"
+  | "c20" :: rest => (Drv.C20.handle rest).getD "bad-op"
   | _ => "bad-op"
 
 partial def loop (h : IO.FS.Stream) (out : IO.FS.Stream) : IO Unit := do
